@@ -96,6 +96,8 @@ class Skyline:
                 return math.log(self.rho[k]), "rho"
         j = self.epoch(h) if h > 0 else 0
         psi = self.psi[j]
+        if psi == 0:
+            return float("-inf"), "psi"  # a psi-sampled tip in an epoch without psi-sampling: the tree has density zero
         if self.r is None:
             return math.log(psi), "psi"
         r = self.r[j]
